@@ -109,7 +109,7 @@ func checkC06(c *Check) {
 		subj := describe(stripConv(e.arg(0)))
 		okSubj := false
 		for _, a := range Support(e.Guard) {
-			if strings.HasPrefix(a, subj+" == ") && !strings.HasSuffix(a, "== -1") {
+			if (strings.HasPrefix(a, subj+" == ") || strings.HasSuffix(a, " == "+subj)) && !strings.HasSuffix(a, "== -1") {
 				if v, _, _ := Valid(fImp(e.Guard, fLit(a))); v {
 					okSubj = true
 				}
